@@ -682,6 +682,8 @@ def run(ctx):
     tick("coq")
     exe = ocamlbuild.build("fold")
     tick("extract")
+    if getattr(ctx, "replay", None):
+        return replay(ctx, tools, exe)
     enums = ir_enums(tools)
     rng = ctx.rng.fork("c06")
     q = not ctx.thorough
@@ -785,6 +787,23 @@ def run(ctx):
             k = "fn:f32%s:value" % c.tag[3:]
             classes[k] += 1
             examples.setdefault(k, c)
+    # float clamp with low > high: WGSL allows min(max(e,low),high) or the median of the three at run time (and makes it an
+    # error in a const-expression); anything else is a value the run-time evaluation can never produce
+    import struct
+    f32v = lambda b: struct.unpack("<f", struct.pack("<I", b))[0]
+    for c in cases:
+        if c.e[0] == "m3" and c.e[1] == "clamp" and isinstance(c.model, list) and c.model[1] == "F32" and matches(c):
+            try:
+                ev, lo, hi = (f32v(lit_bits(x)) for x in c.e[2:5])
+            except Exception:
+                continue
+            if lo > hi:
+                got = f32v(c.model[2])
+                allowed = {min(max(ev, lo), hi), sorted([ev, lo, hi])[1]}
+                k = "fn:clamp:F32:low-greater-than-high:" + ("error-not-reported" if got in allowed else "value-neither-minmax-nor-median")
+                classes[k] += 1
+                if k not in examples or len(FC.render_top(c.e)) < len(FC.render_top(examples[k].e)):
+                    examples[k] = c
     # roundToF16: what it returns must at least be a value representable in f16 (WGSL lets a conversion pick either
     # neighbour, so rounding ties up instead of to even is not held against naga; returning a non-f16 value is)
     f16_cases = [c for c in cases if c.ty == "f16" and isinstance(c.model, list) and c.model[1] == "F16" and matches(c)]
@@ -856,6 +875,35 @@ def run(ctx):
                           found_input=False, broken=broken, files={"make.log": log[-4000:]})
 
 
+def replay(ctx, tools, exe):
+    """bin/check C06 --replay <dir>: re-run the single case stored in <dir>/case.json"""
+    import os
+    pj = os.path.join(ctx.replay, "case.json")
+    if not os.path.exists(pj):
+        print("replay: %s holds no case.json (it is not a single-expression case); re-run the tier instead" % ctx.replay)
+        return
+    d = json.load(open(pj))
+    if not isinstance(d, dict) or "e" not in d:
+        print("replay: case.json is not an expression case")
+        return
+    c = FC.Case(d["pos"], d["ty"], d["e"])
+    FC.run_cases(tools, exe, [c])
+    k = FC.spec_class(c)
+    print("replay: `%s` at '%s': naga %s | model %s | WGSL %s | run time %s | class %s"
+          % (FC.render_top(c.e), c.pos, json.dumps(c.obs), json.dumps(c.model), json.dumps(c.spec), json.dumps(c.rt), k))
+    ctx.cov["evaluations"] = 1
+    ctx.cov["distinct_nontrivial"] = 1
+    ctx.cov["rule"] = "replay of one stored case"
+    ctx.sample({"pos": c.pos, "wgsl": FC.render_top(c.e), "naga": c.obs, "model": c.model, "wgsl_spec": c.spec})
+    if not matches(c):
+        ctx.violation("replayed case: naga and the model disagree on `%s` at '%s': naga %s, model %s" % (FC.render_top(c.e), c.pos, json.dumps(c.obs), json.dumps(c.model)),
+                      files={"case.wgsl": c.src or "", "case.json": json.dumps(d)}, key="model-mismatch:%s:%s:%s" % (c.pos, FC.top_op(c.e), FC.first_leaf_kind(c.e)))
+    elif k:
+        ctx.violation("replayed case violates C06 (class %s): `%s` at '%s' -> naga %s; WGSL specifies %s; run-time value %s"
+                      % (k, FC.render_top(c.e), c.pos, json.dumps(c.obs), json.dumps(c.spec), json.dumps(c.rt)),
+                      files={"case.wgsl": c.src or "", "case.json": json.dumps(d)}, key=k)
+
+
 def matches(c):
     if isinstance(c.obs, list) and isinstance(c.model, list) and c.obs[:1] == ["lit"] and c.model[:1] == ["lit"] \
             and c.obs[1] == c.model[1] and c.obs[1] in ("F32", "F16", "AF"):
@@ -867,4 +915,6 @@ def lit_bits(e):
     """bit pattern of a float literal tree built by float_lit"""
     if e[0] == "un":
         return e[2][2] | (1 << 31)
+    if e[0] != "lit" or e[1] != "F32":
+        raise ValueError("not an f32 literal")
     return e[2]
